@@ -151,6 +151,19 @@ func c15handler(c *Ctx) {
 			nDer = 0
 		}
 		kc := 0
+		collisions := 0
+		// keys of scalar attributes given by WithAttrs since the last WithGroup (the level later attributes join)
+		sameLevelScalarKeys := func() []string {
+			var out []string
+			for i := len(chain) - 1; i >= 0 && chain[i].group == ""; i-- {
+				for _, kv := range chain[i].kvs {
+					if kv.Val.Kind != "group" {
+						out = append(out, kv.Key)
+					}
+				}
+			}
+			return out
+		}
 		for i := 0; i < nDer; i++ {
 			if r.P(40) {
 				g := fmt.Sprintf("grp%d", i)
@@ -163,7 +176,15 @@ func c15handler(c *Ctx) {
 				var kvs []gen.KV
 				for j := 0; j < n; j++ {
 					kc++
-					a, kv := c15attr(r, fmt.Sprintf("d%d~", kc), 1)
+					key := fmt.Sprintf("d%d~", kc)
+					depth := 1
+					// now and then a key that an earlier WithAttrs at the same nesting level already used (scalars only):
+					// every key is printed once, the later one wins
+					if k := sameLevelScalarKeys(); len(k) > 0 && r.P(12) {
+						key, depth = gen.Pick(r, k), 3
+						collisions++
+					}
+					a, kv := c15attr(r, key, depth)
 					as = append(as, a)
 					kvs = append(kvs, kv)
 				}
@@ -194,9 +215,34 @@ func c15handler(c *Ctx) {
 		var recAttrs []stdslog.Attr
 		var recKVs []gen.KV
 		for j := 0; j < nrec; j++ {
-			a, kv := c15attr(r, fmt.Sprintf("r%d~", j), 0)
+			key, depth := fmt.Sprintf("r%d~", j), 0
+			// a record attribute under a key that the handler's own attributes (same level) already carry: the record's wins
+			if k := sameLevelScalarKeys(); len(k) > 0 && r.P(15) {
+				key, depth = gen.Pick(r, k), 3
+				dup := false
+				for _, kv := range recKVs {
+					dup = dup || kv.Key == key
+				}
+				if dup {
+					key, depth = fmt.Sprintf("r%d~", j), 0
+				} else {
+					collisions++
+				}
+			}
+			a, kv := c15attr(r, key, depth)
 			recAttrs = append(recAttrs, a)
 			recKVs = append(recKVs, kv)
+		}
+		if collisions > 0 {
+			c.R.Add("records_with_a_key_given_twice", 1)
+		}
+		// a zero Attr among the record's attributes (log/slog asks handlers to ignore it): whatever the adapter does with
+		// it, the attributes after it belong to the record. JSON only: an empty key has no logfmt / colored spelling.
+		emptyAt := -1
+		if opt.JSON && nrec >= 1 && r.P(12) {
+			emptyAt = r.Intn(nrec)
+			recAttrs = append(recAttrs[:emptyAt:emptyAt], append([]stdslog.Attr{{}}, recAttrs[emptyAt:]...)...)
+			c.R.Add("records_with_a_zero_attr", 1)
 		}
 		// expected tree: later attributes nest under the open groups
 		exp := recKVs
@@ -204,7 +250,7 @@ func c15handler(c *Ctx) {
 			if chain[i].group != "" {
 				exp = []gen.KV{{Key: chain[i].group, Val: gen.V{Kind: "group", Items: exp}}}
 			} else {
-				exp = append(append([]gen.KV(nil), chain[i].kvs...), exp...)
+				exp = lastWins(append(append([]gen.KV(nil), chain[i].kvs...), exp...))
 			}
 		}
 		exp = pruneEmptyGroups(exp)
@@ -228,7 +274,7 @@ func c15handler(c *Ctx) {
 		}
 		rec := stdslog.NewRecord(ts, std, msg, 0)
 		rec.AddAttrs(recAttrs...)
-		desc := map[string]any{"options": fmt.Sprintf("%+v", *opt), "format": f.String(), "logger_level": L.String(), "derivation": cdesc, "record_level": std.String(), "msg": q(msg), "ts": ts.Format(time.RFC3339Nano), "expected_attrs": gen.DescKVs(exp)}
+		desc := map[string]any{"options": fmt.Sprintf("%+v", *opt), "format": f.String(), "logger_level": L.String(), "derivation": cdesc, "record_level": std.String(), "msg": q(msg), "ts": ts.Format(time.RFC3339Nano), "expected_attrs": gen.DescKVs(exp), "keys_given_twice": collisions, "zero_attr_at": emptyAt}
 		derived := "base"
 		if nDer > 0 {
 			derived = "derived"
@@ -297,7 +343,23 @@ func c15handler(c *Ctx) {
 		var viols []tv
 		switch f {
 		case FJSON:
-			for _, v := range c04check(payload, c04case{name: name, msg: msg, lvl: lvl, caller: caller, kvs: exp}) {
+			vs := c04check(payload, c04case{name: name, msg: msg, lvl: lvl, caller: caller, kvs: exp})
+			if emptyAt >= 0 && len(vs) > 0 {
+				// the zero Attr may also be shown (as "":null at the level the record's attributes join)
+				withEmpty := append(append([]gen.KV(nil), recKVs...), gen.KV{Key: "", Val: gen.V{Kind: "nil"}})
+				exp2 := withEmpty
+				for i := len(chain) - 1; i >= 0; i-- {
+					if chain[i].group != "" {
+						exp2 = []gen.KV{{Key: chain[i].group, Val: gen.V{Kind: "group", Items: exp2}}}
+					} else {
+						exp2 = lastWins(append(append([]gen.KV(nil), chain[i].kvs...), exp2...))
+					}
+				}
+				if v2 := c04check(payload, c04case{name: name, msg: msg, lvl: lvl, caller: caller, kvs: pruneEmptyGroups(exp2)}); len(v2) == 0 {
+					vs = nil
+				}
+			}
+			for _, v := range vs {
 				viols = append(viols, tv{v.clause, "json", v.detail})
 			}
 		case FLogfmt:
@@ -354,6 +416,21 @@ func c15handler(c *Ctx) {
 			c.R.Violation(idx, "gated-by-logger", "C15/gated-by-logger/"+derived, fmt.Sprintf("slog.Logger.Log(%v) produced %d record(s); the underlying logger (level %v) admits %v: %v", std, n, L, lvl, want == 1), desc)
 		}
 	})
+}
+
+// lastWins keeps, of the attributes given under one key at one level, the last one.
+func lastWins(kvs []gen.KV) []gen.KV {
+	last := map[string]int{}
+	for i, kv := range kvs {
+		last[kv.Key] = i
+	}
+	var out []gen.KV
+	for i, kv := range kvs {
+		if last[kv.Key] == i {
+			out = append(out, kv)
+		}
+	}
+	return out
 }
 
 func deriveFeature(cdesc []string) string {
